@@ -251,9 +251,21 @@ impl SpillPoolSink {
 
         // Append the batch
         if let Some(ref mut writer) = file_shared.writer {
-            writer.append_batch(batch)?;
             // make sure we flush the writer for readers
-            writer.flush()?;
+            let appended = writer.append_batch(batch).and_then(|_| writer.flush());
+            if let Err(e) = appended {
+                // This file was taken out of `open_write_files` above and is not
+                // put back, so nobody would ever finish it: seal it here. The
+                // reader then consumes the batches it already holds and moves on
+                // to files written by later pushes instead of waiting forever.
+                if let Some(mut writer) = file_shared.writer.take() {
+                    // Ignore errors - the push already failed
+                    let _ = writer.finish();
+                }
+                file_shared.writer_finished = true;
+                file_shared.wake();
+                return Err(e);
+            }
             file_shared.batches_written += 1;
             file_shared.estimated_size += batch_size;
         }
@@ -265,13 +277,16 @@ impl SpillPoolSink {
 
         if max_file_size_reached {
             // Finish the IPC writer
-            if let Some(mut writer) = file_shared.writer.take() {
-                writer.finish()?;
-            }
+            let finished = match file_shared.writer.take() {
+                Some(mut writer) => writer.finish().map(|_| ()),
+                None => Ok(()),
+            };
             // Mark as finished so readers know not to wait for more data
+            // (also when finishing failed: the file is not written to again)
             file_shared.writer_finished = true;
             // Wake reader waiting on this file (it's now finished)
             file_shared.wake();
+            finished?;
 
             // Don't place `write_file` back in the `open_write_files` queue so we don't
             // try writing to it again
